@@ -1,7 +1,7 @@
 /-
 # Package `full`, part 21 — the real run IS the cleaned run, unconditionally (`Full_real_eq_clean`)
 
-From `Full_parse_eq_guarded` (Thm/Full20.lean: the guarded real parse is the guarded cleaned parse from every `InvY` state):
+From `Full_parse_eq_guarded` (Thm/Full25.lean: the guarded real parse is the guarded cleaned parse from every `InvY` state):
 * the guards are removed as in `RelI.parse_relT`: in the cleaned run no guard fires (`Full_clean_guardX'`), so the guarded
   cleaned parse is the plain one and returns no refusal; the guarded real parse, being equal to it, returns no refusal
   either, hence is the plain real parse (`xt_relReal`);
@@ -9,7 +9,7 @@ From `Full_parse_eq_guarded` (Thm/Full20.lean: the guarded real parse is the gua
   calls (`run_eqT`, generic);
 * the ghost is mapped away (`Hom.writeAll_hr`, `Hom.rewriter_end_hr`: the states are related, not only the results).
 -/
-import LolHtml.Thm.Full20
+import LolHtml.Thm.Full25
 import LolHtml.Thm.Full13
 import LolHtml.Thm.Full17
 
